@@ -116,3 +116,28 @@ def with_scaled(cases, r, frac=0.35, scales=SCALES):
         for c in sorted(cs, key=lambda c_: -len(c_.ops))[:2]:
             extra.append(Case("%s_x2^%d_t" % (c.cid, k), scale_ops(c.ops, k), dump=c.dump, meta=dict(c.meta, scale=k)))
     return cases + extra
+
+
+def sprinkle_resets(cases, every=3):
+    """for every third case of every indicator (seed-independent choice, deterministic position) an extra copy in which the
+    instance is RESET once after the window has filled and wrapped (at ~40% of the feeding ops, never within the first
+    period+2 inputs) and then fed the rest: properties that speak about every output of an instance's life (ranges, neutral
+    values, orderings) must also hold after a reset."""
+    out = list(cases)
+    seen = {}
+    for c in cases:
+        ind = c.meta.get("ind")
+        seen[ind] = seen.get(ind, 0) + 1
+        if seen[ind] % every != 1 or getattr(c, "harness_only", False):
+            continue
+        idxs = [i for i, o in enumerate(c.ops) if o[0] in ("n", "b", "i")]
+        p = max([1] + [int(x) for x in c.ops[0][3:6] if isinstance(x, int)])
+        if len(idxs) < p + 6:
+            continue
+        k = max(p + 2, (len(idxs) * 2) // 5)
+        if k >= len(idxs) - 2:
+            continue
+        i = idxs[k]
+        ops = list(c.ops[:i]) + [("r", 0)] + list(c.ops[i:])
+        out.append(Case(c.cid + "_rs", ops, dump=c.dump, meta=dict(c.meta, reset_at=k)))
+    return out
